@@ -23,7 +23,10 @@ Theorems (all without `sorry`; `decide` only on closed finite statements):
   C11G_default_write_twoc, _write_bytes_aligned, _write_zeros   the provided methods of the trait on a recording sink = `Op.expand`
   C11G_new, C11G_accessors, C11G_with_capacity
   C11G_word_write_msbs_impl_debug_assert, C11G_release_outside_valid   where source and model differ (with witnesses)
-Not proved here (generated code exists): `MemSink::write_to_byte_slice` against `exportBytes`.
+  C11G_write_to_byte_slice                any element width: the big-endian bytes of the storage overwrite a prefix of `dest`
+  C11G_write_to_byte_slice_panics         it panics (both profiles) exactly when `dest` ends before the last element starts
+  C11G_word_write_to_byte_slice, C11G_byte_write_to_byte_slice   with a destination of `ceil(len/8)` bytes = `exportBytes`
+  C11G_storage                            `as_slice` / `into_inner` = the model's storage
 -/
 import FlacVerif.Gen.Sink
 import FlacVerif.Lemmas.WordSinkStep
@@ -877,4 +880,179 @@ theorem C11G_release_outside_valid :
     MemSinkU64.write_msbs false (MemSink.new 64) (0xFF#8) 9 ≠ none ∧ (toWord (MemSink.new 64)).writeMsbs (0xFF#8) 9 = none
     ∧ (MemSinkU64.write_twoc false (MemSink.new 64) (-1) 0).isSome = true
     ∧ (toWord (MemSink.new 64)).step (.writeTwoc (-1) 0) = none := by decide
+
+/-! ### `write_to_byte_slice` = `exportBytes`; `as_slice` / `into_inner` -/
+
+/-- the loop body of the generated `write_to_byte_slice` (`n` = `dest.len()` at entry) -/
+def wtbsBody (dbg : Bool) {sw : Nat} (n : Nat) (v : BitVec sw) : List (BitVec 8) × Nat → Option (List (BitVec 8) × Nat) :=
+  fun (dest, head) =>
+      (addU dbg 64 head (sizeOfT sw)).bind fun v1 =>
+      let k2 : List (BitVec 8) → Option ((List (BitVec 8)) × Nat) := fun dest =>
+          (addU dbg 64 head (sizeOfT sw)).bind fun v3 =>
+          let head := v3
+          some (dest, head)
+      if v1 ≤ n then
+        (addU dbg 64 head (sizeOfT sw)).bind fun v4 =>
+        (sliceCopy dest head v4 (beBytes v)).bind fun dest =>
+        k2 dest
+      else
+        (subU dbg 64 n head).bind fun v5 =>
+        let rem := v5
+        (sliceR (beBytes v) 0 rem).bind fun v6 =>
+        (sliceCopy dest head dest.length v6).bind fun dest =>
+        k2 dest
+
+theorem wtbs_unfold (dbg : Bool) {sw : Nat} (g : MemSink sw) (dest : List (BitVec 8)) :
+    MemSink.write_to_byte_slice dbg g dest
+      = (forO g.storage (dest, 0) (wtbsBody dbg dest.length)).bind fun (dest, head) => some dest := rfl
+
+theorem beBytes_length {w : Nat} (v : BitVec w) : (beBytes v).length = w / 8 := by simp [beBytes]
+
+/-- once `head` is past the end of the destination the next element panics (both profiles) -/
+theorem wtbs_past (dbg : Bool) {sw : Nat} (hsw : 0 < sw / 8) (n : Nat) (v : BitVec sw) (d : List (BitVec 8)) (h : Nat)
+    (hd : d.length = n) (hh : n < h) (hb : h + sw / 8 < 2 ^ 64) : wtbsBody dbg n v (d, h) = none := by
+  have h1 : ¬ (h + sw / 8 ≤ n) := by omega
+  have h2 : ¬ (h ≤ n) := by omega
+  simp only [wtbsBody, sizeOfT, addU, hb, if_true, Option.bind_some, h1, if_false, subU, h2]
+  cases dbg
+  · have : ¬ ((2 ^ 64 + n % 2 ^ 64 - h % 2 ^ 64) % 2 ^ 64 ≤ sw / 8) := by
+      rw [Nat.mod_eq_of_lt (show n < 2 ^ 64 by omega), Nat.mod_eq_of_lt (show h < 2 ^ 64 by omega),
+        Nat.mod_eq_of_lt (by omega)]; omega
+    simp [sliceR, beBytes_length, this]
+  · simp
+
+theorem wtbs_loop (dbg : Bool) {sw : Nat} (hsw : 0 < sw / 8) (xs : List (BitVec sw)) (pre rest : List (BitVec 8)) (n : Nat)
+    (hn : n = pre.length + rest.length) (hb : pre.length + (xs.length + 1) * (sw / 8) < 2 ^ 64) :
+    forO xs (pre ++ rest, pre.length) (wtbsBody dbg n) =
+      if xs = [] ∨ (xs.length - 1) * (sw / 8) ≤ rest.length then
+        some (pre ++ (xs.flatMap beBytes).take rest.length ++ rest.drop (xs.length * (sw / 8)), pre.length + xs.length * (sw / 8))
+      else none := by
+  induction xs generalizing pre rest with
+  | nil => simp [forO]
+  | cons x xs ih =>
+    generalize hbdef : sw / 8 = b at *
+    have hbl : (beBytes x).length = b := by rw [beBytes_length, hbdef]
+    simp only [List.length_cons, Nat.add_mul, Nat.one_mul] at hb
+    have hb1 : pre.length + b < 2 ^ 64 := by
+      have : 0 ≤ xs.length * b := Nat.zero_le _
+      omega
+    simp only [forO, List.cons_ne_nil, false_or, List.length_cons, Nat.add_sub_cancel]
+    by_cases hfull : b ≤ rest.length
+    · have h1 : pre.length + b ≤ n := by omega
+      have hstep : wtbsBody dbg n x (pre ++ rest, pre.length)
+          = some ((pre ++ beBytes x) ++ rest.drop b, (pre ++ beBytes x).length) := by
+        have hc : pre.length ≤ pre.length + b ∧ pre.length + b ≤ (pre ++ rest).length ∧ (beBytes x).length = pre.length + b - pre.length := by
+          refine ⟨by omega, by simp; omega, by omega⟩
+        simp only [wtbsBody, sizeOfT, hbdef, addU, hb1, if_true, Option.bind_some, h1, sliceCopy, hc, and_self]
+        simp [List.take_append, List.drop_append, hbl]
+      rw [hstep]
+      simp only [Option.bind_some]
+      rw [ih (pre ++ beBytes x) (rest.drop b) (by simp [hbl]; omega) (by simp only [List.length_append, hbl, Nat.add_mul, Nat.one_mul]; omega)]
+      have htake : (beBytes x ++ xs.flatMap beBytes).take rest.length = beBytes x ++ (xs.flatMap beBytes).take (rest.length - b) := by
+        rw [List.take_append, hbl, List.take_of_length_le (by omega)]
+      simp only [List.flatMap_cons, htake, List.length_drop, List.drop_drop, List.length_append, hbl, Nat.add_mul, Nat.one_mul]
+      cases xs with
+      | nil => simp
+      | cons y ys =>
+        simp only [List.cons_ne_nil, false_or, List.length_cons, Nat.add_sub_cancel, Nat.add_mul, Nat.one_mul]
+        by_cases hc : ys.length * b ≤ rest.length - b
+        · have : ys.length * b + b ≤ rest.length := by omega
+          have this' : b + ys.length * b ≤ rest.length := by omega
+          simp [hc, this, this', Nat.add_comm, Nat.add_left_comm, Nat.add_assoc]
+        · have : ¬ (ys.length * b + b ≤ rest.length) := by omega
+          simp [hc, this]
+    · have h1 : ¬ (pre.length + b ≤ n) := by omega
+      have h2 : pre.length ≤ n := by omega
+      have h3 : n - pre.length = rest.length := by omega
+      have hstep : wtbsBody dbg n x (pre ++ rest, pre.length)
+          = some (pre ++ (beBytes x).take rest.length, pre.length + b) := by
+        have hc1 : 0 ≤ rest.length ∧ rest.length ≤ (beBytes x).length := ⟨by omega, by omega⟩
+        have hc2 : pre.length ≤ (pre ++ rest).length ∧ (pre ++ rest).length ≤ (pre ++ rest).length ∧
+            ((beBytes x).take rest.length).length = (pre ++ rest).length - pre.length := by
+          refine ⟨by simp, Nat.le_refl _, by simp [hbl]; omega⟩
+        simp only [wtbsBody, sizeOfT, hbdef, addU, hb1, if_true, Option.bind_some, h1, if_false, subU, h2, h3, sliceR, hc1,
+          and_self, List.drop_zero, sliceCopy, hc2]
+        simp
+      rw [hstep]
+      simp only [Option.bind_some]
+      cases xs with
+      | nil =>
+        have : rest.drop b = [] := List.drop_eq_nil_of_le (by omega)
+        simp [forO, this]
+      | cons y ys =>
+        have hp := wtbs_past dbg (by omega) n y (pre ++ (beBytes x).take rest.length) (pre.length + b)
+          (by simp [hbl]; omega) (by omega)
+          (by simp only [List.length_cons, Nat.add_mul, Nat.one_mul] at hb
+              have : 0 ≤ ys.length * b := Nat.zero_le _
+              omega)
+        have hne : ¬ ((ys.length + 1) * b ≤ rest.length) := by
+          rw [Nat.add_mul, Nat.one_mul]; omega
+        simp [forO, hp, hne]
+
+/-- `write_to_byte_slice`, any element width: the big-endian bytes of the storage overwrite a prefix of `dest`; it panics
+(both profiles) exactly when `dest` ends before the LAST element starts. -/
+theorem C11G_write_to_byte_slice (dbg : Bool) {sw : Nat} (hw : validWidth sw = true) (g : MemSink sw) (dest : List (BitVec 8))
+    (hb : (g.storage.length + 1) * (sw / 8) < 2 ^ 64) :
+    MemSink.write_to_byte_slice dbg g dest =
+      if g.storage = [] ∨ (g.storage.length - 1) * (sw / 8) ≤ dest.length then
+        some ((g.storage.flatMap beBytes).take dest.length ++ dest.drop (g.storage.length * (sw / 8)))
+      else none := by
+  have hsw : 0 < sw / 8 := by rcases validWidth_cases hw with rfl | rfl | rfl | rfl <;> decide
+  have := wtbs_loop dbg hsw g.storage [] dest dest.length (by simp) (by simpa using hb)
+  simp only [List.nil_append, List.length_nil] at this
+  rw [wtbs_unfold, this]
+  split <;> simp
+
+theorem C11G_write_to_byte_slice_panics (dbg : Bool) {sw : Nat} (hw : validWidth sw = true) (g : MemSink sw)
+    (dest : List (BitVec 8)) (hb : (g.storage.length + 1) * (sw / 8) < 2 ^ 64) :
+    MemSink.write_to_byte_slice dbg g dest = none ↔ g.storage ≠ [] ∧ dest.length < (g.storage.length - 1) * (sw / 8) := by
+  rw [C11G_write_to_byte_slice dbg hw g dest hb]
+  split
+  · rename_i h; simp; intro hne; rcases h with h | h; exact absurd h hne; omega
+  · rename_i h; simp at h; simp; exact ⟨h.1, by omega⟩
+
+theorem word_beBytes_toNat (v : BitVec 64) :
+    (beBytes v).map BitVec.toNat = (List.range 8).map (fun i => (v.toNat >>> (56 - 8 * i)) % 256) := by
+  simp only [beBytes, List.map_map]
+  apply List.map_congr_left
+  intro i hi
+  have : i < 8 := by simpa using hi
+  simp only [Function.comp, BitVec.toNat_setWidth, BitVec.toNat_ushiftRight]
+  congr 2; omega
+
+/-- `MemSink<u64>`: with a destination of exactly `ceil(len / 8)` bytes the result is the model's `exportBytes` -/
+theorem C11G_word_write_to_byte_slice (dbg : Bool) (g : MemSink 64) (hi : (toWord g).Inv) (dest : List (BitVec 8))
+    (hd : dest.length = (g.bitlength + 7) / 8) (hl : g.bitlength < 2 ^ 64) :
+    (MemSink.write_to_byte_slice dbg g dest).map (·.map BitVec.toNat) = some (toWord g).exportBytes := by
+  have hsz := hi.size
+  simp only [toWord] at hsz
+  rw [C11G_write_to_byte_slice dbg (by decide) g dest (by omega)]
+  have hc : g.storage = [] ∨ (g.storage.length - 1) * (64 / 8) ≤ dest.length := Or.inr (by omega)
+  have hdrop : dest.drop (g.storage.length * (64 / 8)) = [] := List.drop_eq_nil_of_le (by omega)
+  simp only [hc, if_true, hdrop, List.append_nil, Option.map_some, WordSink.exportBytes, toWord, hd, List.map_take,
+    List.map_flatMap, word_beBytes_toNat]
+  rw [hd] at hc
+  simp only [hc, if_true, Option.map_some, List.map_take, List.map_flatMap, word_beBytes_toNat]
+
+/-- `MemSink<u8>`: `write_to_byte_slice` into a destination of the storage's size copies the storage = `exportBytes` -/
+theorem C11G_byte_write_to_byte_slice (dbg : Bool) (g : MemSink 8) (hi : (toByte g).Inv) (dest : List (BitVec 8))
+    (hd : dest.length = (g.bitlength + 7) / 8) (hl : g.bitlength < 2 ^ 64) :
+    (MemSink.write_to_byte_slice dbg g dest).map (·.map BitVec.toNat) = some (toByte g).exportBytes := by
+  have hsz := hi.size
+  simp only [toByte] at hsz
+  rw [C11G_write_to_byte_slice dbg (by decide) g dest (by omega)]
+  have hc : g.storage = [] ∨ (g.storage.length - 1) * (8 / 8) ≤ dest.length := Or.inr (by omega)
+  have hdrop : dest.drop (g.storage.length * (8 / 8)) = [] := List.drop_eq_nil_of_le (by omega)
+  have hbe : ∀ v : BitVec 8, beBytes v = [v] := fun v => by
+    simp [beBytes, List.range_succ]
+  have hflat : g.storage.flatMap beBytes = g.storage := by
+    rw [show (beBytes : BitVec 8 → List (BitVec 8)) = (fun v => [v]) from funext hbe]; simp
+  simp only [hc, if_true, hdrop, List.append_nil, Option.map_some, ByteSink.exportBytes, toByte, hflat]
+  rw [List.take_of_length_le (by omega)]
+
+/-- `as_slice` / `into_inner` are the model's storage -/
+theorem C11G_storage (gw : MemSink 64) (gb : MemSink 8) :
+    MemSink.as_slice gw = (toWord gw).storage ∧ MemSink.into_inner gw = (toWord gw).storage
+    ∧ MemSink.as_slice gb = (toByte gb).storage ∧ MemSink.into_inner gb = (toByte gb).storage
+    ∧ (MemSink.as_slice gb).map BitVec.toNat = (toByte gb).exportBytes := ⟨rfl, rfl, rfl, rfl, rfl⟩
 end FlacVerif.C11Gen
